@@ -1112,6 +1112,13 @@ def in_(x, container):
         for e, _ in container[1]:
             r = or_(r, eq(x, e))
         return r
+    if is_const(container) and isinstance(container[1], str) and 0 < len(container[1]) <= 64 and not is_const(x) \
+            and type_of(x) == 'str' and length_of(x) == 1 and len(set(container[1])) == len(container[1]):
+        # one character in a constant alphabet: it is one of its letters
+        r = FALSE
+        for ch in container[1]:
+            r = or_(r, eq(x, const(ch)))
+        return r
     if _all_const(x, container) and isinstance(container[1], (str, bytes, tuple)):
         try:
             return const(x[1] in container[1])
